@@ -627,6 +627,19 @@ func (r *c03Runner) nstBalance(st, as int, amt sdkmath.Int) string {
 	return res
 }
 
+// slashTo slashes the operator with an effective proportion (newSlashProportion of SlashAssets) as close to p as 18 decimals
+// allow: it reads the USD value the real code will divide by (CalculateUSDValueForOperator, for-slash mode) and picks
+// Power and SlashProportion with Power * SlashProportion = p * value, SlashProportion <= 1.
+func (r *c03Runner) slashTo(op int, eh int64, p sdkmath.LegacyDec) string {
+	info, err := r.w.env.App.OperatorKeeper.CalculateUSDValueForOperator(r.ctx, true, r.w.opStrs[op], nil, nil, nil)
+	if err != nil || !info.StakingAndWaitUnbonding.IsPositive() {
+		return r.slash(op, eh, p, 1)
+	}
+	target := p.Mul(info.StakingAndWaitUnbonding)
+	power := target.Ceil().TruncateInt64() + 1
+	return r.slash(op, eh, target.QuoInt64(power), power)
+}
+
 func (r *c03Runner) holdOp(rk string, inc bool) string {
 	k := r.w.env.App.DelegationKeeper
 	kind := "HoldDec"
